@@ -116,8 +116,20 @@ def main(run):
 
     lines = ["rpc"] + list(vlib.read_corpus("C15"))
     kinds = ["corpus"] * len(lines)
+    replay_only = False
+    if getattr(run, "replay", None):
+        # --replay <file>: only the case lines of a replay file ("case: ..." / "... case: ...")
+        import re
+        txt = open(run.replay).read()
+        rl = [m.group(1).strip() for m in re.finditer(r"(?m)case:\s*((?:rpu|rpd|sst|rpe)\b.*)$", txt)]
+        lines = ["rpc"] + [l for l in rl if not l.startswith("rpe")]
+        kinds = ["replay"] * len(lines)
+        replay_only = True
+        replay_rpe = [l for l in rl if l.startswith("rpe")]
 
     def add(gen, kind):
+        if replay_only:
+            return
         for ln in gen:
             lines.append(ln)
             kinds.append(kind)
@@ -127,6 +139,8 @@ def main(run):
     for w in ("1", "2", "3", "63", "64", "65"):
         add(G.rpu_exhaustive(w, ["v0", "v1", "v2", "v3", "v4", "v40", "v41", "v42", "r"], 3 if quick else 4),
             "unit-exhaustive")
+    add(G.rpu_sweep(("32", "64") if quick else ("1", "2", "31", "32", "33", "62", "63", "64", "65", "66", "100")),
+        "unit-sweep")
     for w in (("2", "32") if quick else ("1", "2", "3", "32", "64")):
         for b12 in (0, 1):
             add(G.rpd_exhaustive(w, b12, G.REQ_ALPHABET, 4 if quick else 5), "request-exhaustive")
@@ -213,7 +227,7 @@ def main(run):
 
     # whole exchanges through the client API (B.1.2 recovery included), with replays and
     # tampered copies of everything the client sent
-    elines = list(G.rpe_cases(quick))
+    elines = list(G.rpe_cases(quick)) if not replay_only else replay_rpe
     eo, ecr = run_c(drv, elines)
     conv = [G.parse_rpe(ln, o) for ln, o in zip(elines, eo)]
     mlines = [c[0] for c in conv if c]
@@ -257,3 +271,12 @@ def main(run):
             run.violation("plain and shift-sanitized builds of the driver disagree",
                           "correspondence case: %s\nplain: %s\nsanitized: %s\n" % (ln, b, a),
                           tag="ubdiff", no_input=True)
+
+    # thorough: independent re-check of the compiled proofs
+    if run.tier == "thorough" and not replay_only:
+        import os
+        rc, out = vlib.sh(["coqchk", "-silent", "-o", "-Q", vlib.COQ, "LibcoapV", "LibcoapV.Properties_C15"],
+                          cwd=vlib.COQ, timeout=1500, check=False)
+        run.cov["coqchk"] = "ok" if rc == 0 else "failed"
+        if rc != 0:
+            run.violation("coqchk rejects Properties_C15.vo", out[-3000:], tag="coqchk", no_input=True)
